@@ -53,10 +53,11 @@ pub fn gen_library_opts(r: &mut Rng, with_known_features: bool, quoted_links: bo
             // sub-directories are finding D12)
             if r.chance(1, 12) && !k.contains('/') {
                 // … unless the mark changes what the first line is (`5) item` is no list item behind it: the lines that
-                // follow become one multi-line paragraph, outside the class of texts generated here — finding D33)
+                // follow become one multi-line paragraph, a table row behind it starts no table: outside the class of texts generated
+                // here — finding D33)
                 let marked = format!("\u{feff}{}", text);
                 let shape = |t: &str| -> Vec<(usize, Vec<String>, String)> { md::read(t, &crate::oracle::md::dir_of(k)).links.iter().map(|l| (l.line, l.ctx.clone(), l.holder.clone())).collect() };
-                if with_known_features || shape(&marked) == shape(&text) {
+                if shape(&marked) == shape(&text) {
                     text = marked;
                 }
             }
